@@ -537,6 +537,9 @@ fn monitor_case(rep: &mut Report, cs: &CaseSpec, rng: &mut Rng) {
                 }
             }
             worst = worst.max(w);
+            if j > 1024 {
+                rep.seen(&format!("{}:compared:k>1024", regime), 1);
+            }
             rep.note_add("iterates.compared", 1.0);
             if ident {
                 rep.note_add("iterates.bit_identical", 1.0);
@@ -933,10 +936,14 @@ mod lm {
     //    A = JᵀJ, D = diag A, and the step is δ = (A + μD)⁻¹Jᵀr while the distance to the solution is
     //    e = A⁻¹Jᵀr = (I + μA⁻¹D)δ. The small-step rule ‖δ‖ ≤ eps2(‖p‖ + eps2) therefore gives
     //    ‖e‖ ≤ c(‖p_ls‖ + eps2)/(1 − c), c = (1 + μ‖A⁻¹D‖)eps2, the gradient rule ‖Jᵀr‖∞ ≤ eps1 gives
-    //    ‖e‖ ≤ ‖A⁻¹‖·sqrt(p)·eps1. μ is bounded by μ0 = tau·max D: with min D ≥ 1 the gain ratio of a linear
-    //    model is ≥ 2 at every step (actual reduction δᵀAδ + 2μδᵀDδ over ½(δᵀAδ + μδᵀDδ + μδᵀδ)), so every step
+    //    ‖e‖ ≤ ‖A⁻¹‖·sqrt(p)·eps1. μ is bounded by μ0 = tau·max D: the gain ratio of a linear model is 2 at
+    //    every step (actual reduction δᵀAδ + 2μδᵀDδ over ½ of the predicted reduction δᵀ(μDδ + Jᵀr) =
+    //    δᵀAδ + 2μδᵀDδ of the damped model that was solved), whatever the column norms, so every step
     //    is accepted and divides μ by 3; the hooks confirm that nothing was rejected. Judged only when
-    //    c ≤ 0.1, min D ≥ 1, no rejection, and the call stopped before its budget; 16× headroom (worst seen: 0.8 of the bare bound);
+    //    c ≤ 0.1, no rejection, and the call stopped before its budget; 16× headroom (worst seen: 0.8 of the bare bound).
+    //    (Until the repair of the gain ratio in the library — predicted reduction with μI instead of μD — this
+    //    held only for min D ≥ 1 and was judged only there; fits with a column of squared norm < 1 are now judged
+    //    too, under the label `lm-linear:far-start:min-diag-JtJ<1`.)
     //  * with (1e-14, 1e-14, tau) and 200 steps the solution is reached to 1e-7(1+‖p_ls‖) + floor, as in `reach_ls`.
 
     pub struct Far {
@@ -1050,12 +1057,13 @@ mod lm {
                 rep.seen("lm-linear:far-start:stop-bound:low-power(budget exhausted)", 1);
             } else if *rej > 0 {
                 rep.seen("lm-linear:far-start:stop-bound:low-power(rejected steps)", 1);
-            } else if !(dmin >= 1.0) {
-                rep.seen("lm-linear:far-start:stop-bound:low-power(min diag JtJ < 1)", 1);
             } else if !(c <= 0.1) {
                 rep.seen("lm-linear:far-start:stop-bound:low-power(damping bound)", 1);
             } else {
+                // judged for every column scaling; the class with a column of squared norm < 1 keeps a label of its own
+                let regime = if dmin >= 1.0 { regime } else { "lm-linear:far-start:min-diag-JtJ<1" };
                 rep.seen("lm-linear:far-start:stop-bound:judged", 1);
+                rep.seen(if dmin >= 1.0 { "lm-linear:far-start:stop-bound:judged:min-diag>=1" } else { "lm-linear:far-start:stop-bound:judged:min-diag<1" }, 1);
                 let bound = 16.0 * (c * (pn + eps) / (1.0 - c) + ainv_f * (np as f64).sqrt() * eps) + floor;
                 let e = dist(p);
                 rep.note_max("worst_ratio.lm_far_start_distance_over_stop_bound", e / bound);
@@ -1078,11 +1086,11 @@ mod lm {
                 let (acc, rej) = (count(Site::LmAccept) - a0, count(Site::LmReject) - r0);
                 let tol = 1e-7 * (1.0 + pn) + 16.0 * (n as f64 * EPS * f.rss(pls) / lmin_a).sqrt();
                 let e = dist(&p);
-                // Found on the unchanged tree: when a column of J has squared norm < 1 the gain ratio (computed
-                // with the predicted reduction of an un-scaled damping μI while the step is damped by μ·diag JᵀJ)
-                // can stay below ½ on perfectly predicted steps, the damping doubles on every ACCEPTED step and the
-                // iteration stalls a fixed fraction of the start distance away (any distance, far or near).
-                // That mechanism has its own regime; with min diag ≥ 1 it cannot occur (gain ratio ≥ 2).
+                // Found on the pinned tree (since repaired in the library): when a column of J has squared norm < 1 the
+                // gain ratio (computed with the predicted reduction of an un-scaled damping μI while the step is damped by
+                // μ·diag JᵀJ) could stay below ½ on perfectly predicted steps, the damping doubled on every ACCEPTED step
+                // and the iteration stalled a fixed fraction of the start distance away (any distance, far or near).
+                // That class keeps its own regime label.
                 let regime = if dmin >= 1.0 { regime } else { "lm-linear:far-start:min-diag-JtJ<1" };
                 rep.seen(if dmin >= 1.0 { "lm-linear:far-start:reach:min-diag>=1" } else { "lm-linear:far-start:min-diag-JtJ<1" }, 1);
                 if e <= tol {
@@ -1224,12 +1232,12 @@ fn directed(rep: &mut Report, rng: &mut Rng) {
 }
 
 pub fn run(cfg: &Cfg, rep: &mut Report) {
-    rep.rule = "Adam/SGD: random objective (convex / non-convex quadratic in 1..8 dims with eigenvalues 0.05..4 resp. -1..4, chained Rosenbrock in 2..4 dims, mean-squared-error losses of p0*exp(p1 t)[+p2], p0*sin(p1 t+p2), (p0+p1 t)/(1+(p2 t)^2) on 5..30 points) x optimizer (Adam, plain SGD, momentum, Nesterov) x hyper-parameters (stepsize log-uniform 1e-4..0.5, beta1/beta2 in (0.01,0.9999), momentum in [0,0.99]); every maxsteps 0..K is a separate optimize call on one reused optimizer object (K = 200; thorough: 0..200 dense for all 400 cases, 12 cases dense to 2000, the others 40 random budgets k in 201..2000 each with k-1). LM: random polynomial / trigonometric (linear), exponential and logistic fits, 5..200 noisy points, 1..5 parameters, poor starts; every budget 0..200 is a separate call for n <= 12, else budgets 0..12 (0..8 for n > 100) + 10 (4) random ones + 200. Then separable quadratics whose solution components differ by up to 1e12 in size (2..6 dims, per-coordinate contraction rates stepsize*a_i in {1, .5, .75, 1.5, .25} and sometimes one slow coordinate .05/.1) for the four optimizers, same trajectory / early-stop oracle. Then linear LM problems started 1e2..1e8 solution norms away from the least-squares solution (direction components differing by up to 1e6): descent for budgets 0,1,2,3,5,..,144,200 with (eps,eps,tau), eps in {1e-6,1e-8,1e-10}, tau in {1e-2,1e-3,1e-6,1e-9}; a call that stopped before its budget lies within the distance its own stop rules imply; (1e-14,1e-14,tau) reaches the solution. non-trivial = every case (all have a non-zero gradient at the start); distinct by (regime, hyper-parameters, start, data prefix)".into();
+    rep.rule = "Adam/SGD: random objective (convex / non-convex quadratic in 1..8 dims with eigenvalues 0.05..4 resp. -1..4, chained Rosenbrock in 2..4 dims, mean-squared-error losses of p0*exp(p1 t)[+p2], p0*sin(p1 t+p2), (p0+p1 t)/(1+(p2 t)^2) on 5..30 points) x optimizer (Adam, plain SGD, momentum, Nesterov) x hyper-parameters (stepsize log-uniform 1e-4..0.5, beta1/beta2 in (0.01,0.9999), momentum in [0,0.99]); every maxsteps 0..K is a separate optimize call on one reused optimizer object (K = 200, plus in both tiers 4 (thorough 16) long trajectories per optimizer with budgets 255..257, 511..513, 999..1001, 1023..1025, 1499, 1500, 1999, 2000, stepsize 1e-4..5e-3 and beta1/beta2/momentum in {0.9, 0.95, 0.99, 0.999, 0.9999}; thorough: 0..200 dense for all 400 cases, 12 cases dense to 2000, the others 40 random budgets k in 201..2000 each with k-1). LM: random polynomial / trigonometric (linear), exponential and logistic fits, 5..200 noisy points, 1..5 parameters, poor starts; every budget 0..200 is a separate call for n <= 12, else budgets 0..12 (0..8 for n > 100) + 10 (4) random ones + 200. Then separable quadratics whose solution components differ by up to 1e12 in size (2..6 dims, per-coordinate contraction rates stepsize*a_i in {1, .5, .75, 1.5, .25} and sometimes one slow coordinate .05/.1) for the four optimizers, same trajectory / early-stop oracle. Then linear LM problems started 1e2..1e8 solution norms away from the least-squares solution (direction components differing by up to 1e6): descent for budgets 0,1,2,3,5,..,144,200 with (eps,eps,tau), eps in {1e-6,1e-8,1e-10}, tau in {1e-2,1e-3,1e-6,1e-9}; a call that stopped before its budget lies within the distance its own stop rules imply; (1e-14,1e-14,tau) reaches the solution. non-trivial = every case (all have a non-zero gradient at the start); distinct by (regime, hyper-parameters, start, data prefix)".into();
     rep.assume("objectives avoid `f64 / Var` nodes: reverse 0.2.2 differentiates c/x as -1/x (a defect of the autodiff dependency, not of compute); divisions are Var/Var and Var/f64");
     rep.assume("iterates are compared while the reference is finite (< 1e150) and the self-calibrated tolerance stays below 1e-6*(1+|x|); later budgets of such a case are counted under '<regime>:low-power' and only checked for panics, shape, early-stop rule and determinism");
     rep.assume("'stopped changing' is judged on the library's own reconstructed iterates j and j-1 (4 ulp, same sign); the library iterate j is itself tied to the reference iterate j by the iterate assertion");
     rep.assume("LM: n >= p + 2 (s^2 = RSS/(n-p) is undefined for n = p); starts with non-finite RSS are skipped; reaching the least-squares solution is demanded only when kappa(JtJ) <= 4e4 (normal equations in double precision can deliver 1e-7) with LM::new(1e-14,1e-14,tau) and 200 steps (2000 in the thorough tier for the poorly conditioned class)");
-    rep.assume("LM far starts: the stop-rule bound is asserted only when the call stopped before its budget, no step was rejected (hook), min diag(JtJ) >= 1 (then every step of a linear model has gain ratio >= 2, is accepted and divides the damping by 3, so mu <= tau*max diag(JtJ)) and (1 + mu0*||inv(JtJ) diag(JtJ)||)*eps2 <= 0.1; other cases are counted under lm-linear:far-start:stop-bound:low-power(*)");
+    rep.assume("LM far starts: the stop-rule bound is asserted only when the call stopped before its budget, no step was rejected (hook; every step of a linear model has gain ratio 2 against the damped model that was solved, is accepted and divides the damping by 3, so mu <= tau*max diag(JtJ), for every column scaling) and (1 + mu0*||inv(JtJ) diag(JtJ)||)*eps2 <= 0.1; other cases are counted under lm-linear:far-start:stop-bound:low-power(*)");
     let (ncase, kmax) = if cfg.lite { (cfg.pick(8, 8, 2), 20) } else if cfg.thorough() { (400, 2000) } else { (60, 200) };
     let nlm = cfg.pick(200, 5000, 2);
     // LM problems are generated up front (own seed per problem) so that they can be scheduled by cost
@@ -1256,6 +1264,7 @@ pub fn run(cfg: &Cfg, rep: &mut Report) {
     enum Item {
         Traj(usize),
         TrajScaled(usize),
+        TrajLong(usize),
         Directed,
         Lm(usize),
         LmFar(usize),
@@ -1268,6 +1277,9 @@ pub fn run(cfg: &Cfg, rep: &mut Report) {
     let mut traj_items: std::collections::VecDeque<Item> = (0..ncase).map(Item::Traj).collect();
     traj_items.push_front(Item::Directed);
     traj_items.extend((0..nscaled).map(Item::TrajScaled));
+    // long trajectories with sparse budgets around round step counts (stream 6); the lite layers stop at 20 steps
+    let nlong = if cfg.lite { 0 } else if cfg.thorough() { 64 } else { 16 };
+    traj_items.extend((0..nlong).map(Item::TrajLong));
     let mut lm_items: std::collections::VecDeque<Item> = lm_order.iter().map(|&k| Item::Lm(k)).collect();
     lm_items.extend((0..nfar).map(Item::LmFar));
     let mut sched: Vec<Item> = Vec::new();
@@ -1322,6 +1334,47 @@ pub fn run(cfg: &Cfg, rep: &mut Report) {
             let cs = CaseSpec { pr: &pr, opt: o, x0, kmax, budgets: b, regime: regime.clone(), stop_regime: regime };
             monitor_case(rep, &cs, rng);
         }
+        Item::TrajLong(i) => {
+            // "for every step budget k": nothing in the published recurrences changes character after some number of
+            // steps, so an implementation must not either (a warm-up phase that ends, a counter that is narrowed or
+            // wraps, a correction that is dropped once it "no longer matters", a schedule keyed to the step number).
+            // Budgets sit on both sides of round step counts — 256, 512, 1000, 1024 — and at 1500 and 2000 (the end
+            // of the quantifier's range), each with its predecessor; hyper-parameters are chosen so that the run is
+            // still moving at step 2000 (small step sizes) and the step number still matters there (beta1, beta2,
+            // momentum near 1: beta2^1024 = 0.36 for the default 0.999). Same reference recurrence and
+            // self-calibrated tolerance as every other trajectory, under `<optimizer>:long-budget`.
+            let seed = case_seed(cfg.seed, 6, i as u64);
+            rep.case_seed = seed;
+            let rng = &mut Rng::new(seed);
+            let which_opt = i % 4;
+            let fam = (i / 4) % 4;
+            let (pr, x0) = match fam {
+                0 => obj::quadratic(rng, true),
+                1 => obj::rosenbrock(rng),
+                2 => obj::quadratic(rng, false),
+                _ => {
+                    let which = rng.usize(0, 2);
+                    obj::least_squares(rng, which)
+                }
+            };
+            let lr = if fam == 1 { rng.log_range(1e-4, 1e-3) } else { rng.log_range(1e-4, 5e-3) };
+            let near_one = |rng: &mut Rng| *rng.choose(&[0.9, 0.99, 0.999, 0.9999]);
+            let o = match which_opt {
+                0 => Opt::Adam { lr, b1: if rng.chance(0.5) { 0.9 } else { near_one(rng) }, b2: if rng.chance(0.5) { 0.999 } else { near_one(rng) }, eps: 1e-8 },
+                1 => Opt::Sgd { lr, mom: 0.0, nesterov: false },
+                2 => Opt::Sgd { lr: lr * 0.1, mom: *rng.choose(&[0.9, 0.95, 0.99]), nesterov: false },
+                _ => Opt::Sgd { lr: lr * 0.1, mom: *rng.choose(&[0.9, 0.95, 0.99]), nesterov: true },
+            };
+            let kmax = 2000usize;
+            let mut b: Vec<usize> = vec![0, 1, 2];
+            for m in [256usize, 512, 1000, 1024] {
+                b.extend_from_slice(&[m - 1, m, m + 1]);
+            }
+            b.extend_from_slice(&[1499, 1500, 1999, 2000]);
+            let regime = format!("{}:long-budget", o.name());
+            let cs = CaseSpec { pr: &pr, opt: o, x0, kmax, budgets: b, regime: regime.clone(), stop_regime: regime };
+            monitor_case(rep, &cs, rng);
+        }
         Item::LmFar(k) => {
             let seed = case_seed(cfg.seed, 5, k as u64);
             rep.case_seed = seed;
@@ -1355,6 +1408,15 @@ pub fn run(cfg: &Cfg, rep: &mut Report) {
         rep.require("early-stop:sgd", 1);
         rep.require("lm-linear:far-start", 1);
         rep.require("lm-linear:far-start:stop-bound:judged", 1);
+        rep.require("lm-linear:far-start:stop-bound:judged:min-diag>=1", 1);
+        if cfg.thorough() {
+            // a few per cent of the far-start fits (short series on [-1, 1], high powers): too few in 150 quick cases to demand one
+            rep.require("lm-linear:far-start:stop-bound:judged:min-diag<1", 1);
+        }
+        for o in ["adam", "sgd", "momentum", "nesterov"] {
+            rep.require(&format!("{}:long-budget", o), 1);
+            rep.require(&format!("{}:long-budget:compared:k>1024", o), 1);
+        }
         for d in 2..8 {
             rep.require(&format!("far-start:ratio=1e{}", d), 1);
         }
